@@ -735,8 +735,28 @@ fn dhcp_case(d: &mut Delta, rng: &mut impl Rng) {
         b.extend_from_slice(&rng.bytes(16)); // 4 addresses
         b.extend_from_slice(&rng.bytes(2)); // chaddr
         b.push(ty);
-        let s1: Vec<u8> = (0..*rng.pick(&[0usize, 1, 5, 64])).map(|_| rng.gen_range(1u8..0x7f)).collect();
-        let s2: Vec<u8> = (0..*rng.pick(&[0usize, 1, 8, 128])).map(|_| rng.gen_range(1u8..0x7f)).collect();
+        let n1 = *rng.pick(&[0usize, 1, 5, 64]);
+        let n2 = *rng.pick(&[0usize, 1, 8, 128]);
+        // strings without the terminator: any Unicode text, not only ASCII (1..4-byte UTF-8 sequences)
+        let mut text = |n: usize| -> Vec<u8> {
+            let ascii_only = rng.gen::<bool>();
+            (0..n)
+                .map(|_| {
+                    if ascii_only || rng.gen_range(0..3) > 0 {
+                        rng.gen_range(1u8..0x7f) as char
+                    } else {
+                        *[
+                            '\u{80}', '\u{e9}', '\u{fc}', '\u{ff}', '\u{100}', '\u{7ff}', '\u{800}', '\u{20ac}', '\u{4e2d}', '\u{ffff}', '\u{10000}', '\u{1f600}', '\u{10ffff}',
+                        ]
+                        .get(rng.gen_range(0..13))
+                        .unwrap()
+                    }
+                })
+                .collect::<String>()
+                .into_bytes()
+        };
+        let s1: Vec<u8> = text(n1);
+        let s2: Vec<u8> = text(n2);
         b.extend_from_slice(&s1);
         b.push(0);
         b.extend_from_slice(&s2);
